@@ -35,6 +35,8 @@ from harness import core
 
 PROP = 'C13'
 
+OWN_CORPUS = True   # the histories of corpus/C13 are run by run() itself
+
 META = dict(
     text='PARTIAL. Kernel-checked for histories of any length over the model of the process state (table-group cache with the '
          'popitem eviction loop and any limit incl. 0/1, per-coder compiled-template cache with its limit, kept message objects, '
